@@ -52,9 +52,22 @@ def vacancy(name, chem, shell, Nthermo, rng, orient=True, NGFmax=4, cache=True):
     s = Setup()
     s.name, s.chem, s.shell, s.Nthermo = name, chem, shell, Nthermo
     s.crys, s.w, s.unit = crystal_for(name, rng, orient)
-    s.cutoff = rel.cutoff_for(s.w, chem, shell, s.unit)
     s.sitelist = s.crys.sitelist(chem)
-    s.jumpnetwork = s.crys.jumpnetwork(chem, s.cutoff)
+    # the Green function needs a network that percolates in every direction: take the first shell >= `shell`
+    # for which the unit-rate diffusivity is positive definite
+    for sh in range(shell, shell + 6):
+        s.cutoff = rel.cutoff_for(s.w, chem, sh, s.unit)
+        s.jumpnetwork = s.crys.jumpnetwork(chem, s.cutoff)
+        if not s.jumpnetwork:
+            continue
+        D1 = OnsagerCalc.Interstitial(s.crys, chem, s.sitelist, s.jumpnetwork).diffusivity(
+            np.ones(len(s.sitelist)), np.zeros(len(s.sitelist)), np.ones(len(s.jumpnetwork)),
+            np.zeros(len(s.jumpnetwork)))
+        if np.min(np.linalg.eigvalsh(0.5 * (D1 + D1.T))) > 1e-6:
+            s.shell = sh
+            break
+    else:
+        raise ValueError("no percolating network for %s" % name)
     s.calc = OnsagerCalc.VacancyMediated(s.crys, chem, s.sitelist, s.jumpnetwork, Nthermo, NGFmax=NGFmax)
     c = s.calc
     s.sizes = {"V": len(c.sitelist), "S": len(c.sitelist), "SV": c.thermo.Nstars, "T0": len(c.om0_jn),
